@@ -54,9 +54,27 @@ structure BisimResult where
   /-- on failure: distinguishing word (code points, `1114112` stands for end-of-input) and what differs -/
   word : List Nat := []
   why : String := ""
+  /-- on failure: the word extended to a shortest word accepted by the side that can go on
+  (a candidate input on which the two machines produce different tokens) -/
+  witness : List Nat := []
 deriving Repr
 
 def eoiSym : Nat := 0x110000
+
+/-- Shortest word from `c` to a configuration with a non-empty accept list (breadth-first,
+one representative per class; bounded). -/
+def completion {τ : Type} [Target τ] (d : DFA τ) (c : Cfg) : List Nat :=
+  let rec go : Nat → List (Cfg × List Nat) → List Cfg → List Nat
+    | 0, _, _ => []
+    | _ + 1, [], _ => []
+    | fuel + 1, (x, w) :: queue, seen =>
+      if !(Auto.acc d x).isEmpty then w.reverse
+      else if seen.contains x then go fuel queue seen
+      else
+        let pts := ((0x7A :: Auto.points d x).filter (· ≤ charMax)).eraseDups
+        let next := pts.filterMap fun p => (Auto.step d x p).map fun y => (y, p :: w)
+        go fuel (queue ++ next) (x :: seen)
+  go 4000 [(c, [])] []
 
 def showAccs (l : List Acc) : String :=
   toString (l.map fun a => (a.value, a.ctx))
@@ -88,10 +106,10 @@ def bisimLoop {τ₁ τ₂ : Type} [Target τ₁] [Target τ₂] (a : DFA τ₁)
               -- enqueue each distinct target pair once
               if seen.contains (x', y') || acc.any (fun q => q.1 == x' && q.2.1 == y') then go cs acc
               else go cs ((x', y', c :: w) :: acc)
-            | some _, none => .error ((c :: w).reverse, "transition only on the left")
-            | none, some _ => .error ((c :: w).reverse, "transition only on the right")
+            | some x', none => .error ((c :: w).reverse ++ completion a x', "transition only on the left")
+            | none, some y' => .error ((c :: w).reverse ++ completion b y', "transition only on the right")
         match go pts [] with
-        | .error (word, why) => { ok := false, pairs := seen.length, word := word, why := why }
+        | .error (word, why) => { ok := false, pairs := seen.length, word := word, why := why, witness := word }
         | .ok next =>
           match Auto.eoi a x, Auto.eoi b y with
           | none, none => bisimLoop a b accEq fuel (queue ++ next) seen
